@@ -487,18 +487,20 @@ inductive LoadOut
   | data (img : Img V)                                -- `full=False`: the array alone
   | full (img : Img V) (params : Option Params)       -- `full=True`: `(array, params)`, `none` = `{}`
 
-/-- `load(path, use_analog, full=False)`: sniff, detect decimal commas, read the requested channel; the
-parameters are not read at all -/
+/-- `load(path, use_analog, full=False)` on the table: sniff, detect decimal commas, read the requested
+channel; the parameters are not read at all -/
+def loadData (x : Ext V) (delim : Char) (t : Table) (useAnalog : Bool) : LoadOut :=
+  let comma := detectComma delim t
+  match sniff t with
+  | .unknown => .raises
+  | .rows => match readRows x comma (chanOf useAnalog) t with | none => .raises | some img => .data img
+  | .columns => match readCols x comma (chanOf useAnalog) t with | none => .raises | some img => .data img
+
+/-- … on the text itself (as `loadText`) -/
 def loadDataText (x : Ext V) (lines : List String) (useAnalog : Bool) : LoadOut :=
   match (lines.headD "").toList with
   | [] => .raises
-  | d :: _ =>
-    let t := lines.map (splitLine d)
-    let comma := detectComma d t
-    match sniff t with
-    | .unknown => .raises
-    | .rows => match readRows x comma (chanOf useAnalog) t with | none => .raises | some img => .data img
-    | .columns => match readCols x comma (chanOf useAnalog) t with | none => .raises | some img => .data img
+  | d :: _ => loadData x d (lines.map (splitLine d)) useAnalog
 
 /-- `load(path, use_analog, full)` -/
 def loadCall (x : Ext V) (lines : List String) (useAnalog full : Bool) : LoadOut :=
